@@ -206,6 +206,7 @@ def check_decode_against_spec(ctx, byte_lists, origin, maxchars=None):
 def correspondence(ctx):
     utf8_correspondence(ctx)
     codec_correspondence(ctx)
+    doc_correspondence(ctx)
 
 def utf8_correspondence(ctx):
     F, T = gen_cases(ctx)
@@ -392,6 +393,91 @@ def codec_correspondence(ctx):
     ctx.stats["distinct_nontrivial"] = ctx.stats.get("distinct_nontrivial", 0) + len(set(lines))
     ctx.samples.append({"case": lines[len(lines) // 2], "model": m[len(lines) // 2], "impl": i[len(lines) // 2]})
 
+# ------------------------------------------------------------------ document level
+DOC_ENCS = [  # (declared name, family, encoder key)
+    ("UTF-8", "8", "utf8"), ("ISO-8859-1", "8", "ISO-8859-1"), ("US-ASCII", "8", "US-ASCII"), ("windows-1252", "8", "windows-1252"),
+    ("UTF-16", "16", None), ("UTF-16LE", "16L", "UTF-16LE"), ("UTF-16BE", "16B", "UTF-16BE"),
+    ("UCS-4", "32", None), ("UCS-4LE", "32L", "UCS-4LE"), ("UCS-4BE", "32B", "UCS-4BE"),
+    ("IBM037", "E", "IBM037"), ("IBM1047", "E", "IBM1047"), ("IBM1140", "E", "IBM1140")]
+
+def enc_text(key, cps, tabs):
+    if key == "utf8":
+        return [b for c in cps for b in enc_utf8(c)]
+    if key in tabs:
+        out = []
+        for c in cps:
+            b = tabs[key][1].get(c)
+            if b is None or (b == 0 and c != 0): return None
+            out.append(b)
+        return out
+    return spec_encode(key, cps)
+
+def doc_correspondence(ctx):
+    r = ctx.rng
+    tabs = load_gen_tables()
+    lines = []; meta = []
+    pools = {"ascii": list(range(0x61, 0x7B)) + [0x20, 0x2D], "latin": [0xE9, 0xF1, 0xFC, 0xA9], "bmp": [0x20AC, 0x3B1, 0x4E2D, 0xFFFD],
+             "supp": [0x1F600, 0x10400, 0x10FFFF]}
+    for _ in range(2500 if ctx.thorough() else 260):
+        actual = r.choice([e for e in DOC_ENCS if e[2]])
+        kinds = ["ascii"]
+        if actual[2] in ("utf8", "UTF-16LE", "UTF-16BE", "UCS-4LE", "UCS-4BE"): kinds += ["latin", "bmp", "supp"]
+        elif actual[2] in ("ISO-8859-1", "windows-1252", "IBM037", "IBM1047", "IBM1140"): kinds += ["latin"]
+        txt = [r.choice(pools[r.choice(kinds)]) for _ in range(1 + r.below(8))]
+        av = [r.choice(pools[r.choice(kinds)]) for _ in range(r.below(5))]
+        mode = r.below(10)
+        if mode < 6:
+            declared = actual if mode else None          # matching declaration / none
+            if declared is None and actual[1] in ("8",) and actual[2] != "utf8":
+                declared = actual                        # 8-bit non-UTF-8 needs its declaration
+            if declared is None and actual[1] == "E": declared = actual
+            if declared is not None and actual[1] in ("16L", "16B") and r.chance(1, 2): declared = DOC_ENCS[4]
+            if declared is not None and actual[1] in ("32L", "32B") and r.chance(1, 2): declared = DOC_ENCS[7]
+            expect = "same"
+        else:
+            declared = r.choice(DOC_ENCS)
+            fa, fd = actual[1], declared[1]
+            compatible = fa == fd or (fd == "16" and fa in ("16L", "16B")) or (fd == "32" and fa in ("32L", "32B"))
+            if compatible: expect = "same" if (fa != "8" or declared[0] == actual[0]) else "skip"
+            else: expect = "reported"
+        decl = [ord(c) for c in ('<?xml version="1.0"' + (' encoding="%s"' % declared[0] if declared else "") + "?>")]
+        body = [ord(c) for c in '<r a="'] + av + [ord(c) for c in '">'] + txt + [ord(c) for c in "</r>"]
+        bs = enc_text(actual[2], decl + body, tabs)
+        if bs is None: continue
+        bom = []
+        fam = actual[1]
+        usebom = r.chance(1, 2)
+        if fam in ("16L", "16B") and (usebom or declared is None or declared[0] == "UTF-16"):
+            bom = [0xFF, 0xFE] if fam == "16L" else [0xFE, 0xFF]
+        elif fam in ("32L", "32B") and (usebom or declared is None):
+            bom = [0xFF, 0xFE, 0, 0] if fam == "32L" else [0, 0, 0xFE, 0xFF]
+        elif actual[2] == "utf8" and usebom:
+            bom = [0xEF, 0xBB, 0xBF]
+        content = [0x3C, 0x72, 0x7C, 0x61, 0x7C] + [u for c in av for u in utf16(c)] + [0x7C] + [u for c in txt for u in utf16(c)] + [0x3E]
+        lines.append("D " + hx(bom + bs)); meta.append((expect, actual[0], declared[0] if declared else None, bool(bom), hx(content)))
+    outs, crashes = common.run_lines_resilient("hx_utf8", lines)
+    cats = {}
+    hist = {}
+    for l, o, me in zip(lines, outs, meta):
+        expect, act, dec, hasbom, content = me
+        hist[expect] = hist.get(expect, 0) + 1
+        bad = None
+        if expect == "same":
+            if not o.startswith("ok " + content + " "): bad = ("doc-encoding-content", "document in %s (declared %s, BOM %s) must yield content %s" % (act, dec, hasbom, content))
+            elif " w=0 e=0" not in o: bad = ("doc-encoding-spurious-report", "matching declaration %s on %s data reported as a problem" % (dec, act))
+        elif expect == "reported":
+            if o.startswith("ok") and o.endswith(" w=0 e=0"):
+                bad = ("doc-encoding-contradiction-unreported", "declaration %s contradicts the detected family of %s data but nothing was reported" % (dec, act))
+        if o.startswith("CRASH") or o.startswith("FOREIGN"):
+            bad = ("doc-encoding-crash", o[:100])
+        if bad and (bad[0] not in cats or len(l) < len(cats[bad[0]][0])):
+            cats[bad[0]] = (l, o, bad[1])
+    for key, (l, o, what) in cats.items():
+        ctx.violations.append({"key": key, "concrete": True, "what": "%s; parser result: %s" % (what, o[:160]), "replay": {"op": l, "impl": o}})
+    ctx.stats["doc_cases"] = len(lines); ctx.stats["doc_expectations"] = hist
+    ctx.stats["evaluations"] = ctx.stats.get("evaluations", 0) + len(lines)
+    ctx.stats["distinct_nontrivial"] = ctx.stats.get("distinct_nontrivial", 0) + len(set(lines))
+
 def is_wf16(us):
     k = 0
     while k < len(us):
@@ -429,6 +515,9 @@ def search(ctx, broken):
 def replay(ctx, path):
     import json
     r = json.load(open(path))["replay"]
+    if "op" in r and isinstance(r["op"], str) and r["op"].split()[0] == "D":
+        p = common.run_harness("hx_utf8", input=(r["op"] + "\n").encode())
+        print("case :", r["op"]); print("impl :", p.stdout.decode().strip()); return 0
     if "op" in r and isinstance(r["op"], str) and r["op"].split()[0] in ("GF", "GT", "GC", "P"):
         m, i, _ = common.run_pair("codec", "hx_utf8", [r["op"]])
         print("case :", r["op"]); print("model:", m[0]); print("impl :", i[0]); return 0
